@@ -522,6 +522,115 @@ theorem object_case (h : TableOK st) (g : Nat) (ih : IHle st o re defs g) (ctx :
       rw [ofBool_ne_reject, List.all_eq_true]
       simpa using hextra
 
+/-- own fields of a class: each declared member that is present is accepted, each required one is
+present (shared by the object and the allOf case) -/
+theorem fields_ne_reject (h : TableOK st) (g : Nat) (ih : IHle st o re defs g)
+    (props : List (List Char × Schema)) (rq : List (List Char)) (kvs : List (List Char × Json)) (f : Nat)
+    (hps : Schema.propsInSubset props = true)
+    (hreq : ∀ k ∈ rq, hasKey kvs k = true)
+    (hprops : ∀ p ∈ props, (match kvs.lookup p.1 with
+      | some x => validJ re f defs p.2 x
+      | none => true) = true) :
+    Tri.all ((trProps st o rq props).map (fun fld =>
+      match kvs.lookup fld.1 with
+      | none => if fld.2.1 then (if isOpt fld.2.2.2 then .laxZone else .reject) else .accept
+      | some x =>
+        if x.isNull && !fld.2.1 && !isConst fld.2.2.2 then .accept
+        else Tri.and (acceptsTy st re g (trDefs st o defs) fld.2.2.2 x) (checkCons st re fld.2.2.1 x)))
+      ≠ .reject := by
+  rw [all_ne_reject, trProps_eq_map]
+  intro t ht
+  simp only [List.map_map, List.mem_map, Function.comp] at ht
+  obtain ⟨p, hp, rfl⟩ := ht
+  obtain ⟨nm, s⟩ := p
+  simp only
+  have hpx := hprops (nm, s) hp
+  simp only at hpx
+  cases hl : kvs.lookup nm with
+  | none =>
+    simp only
+    cases hr : rq.contains nm with
+    | false => simp
+    | true =>
+      have : nm ∈ rq := by simpa using hr
+      have := hreq nm this
+      simp [hasKey, hl] at this
+  | some x =>
+    simp only
+    split
+    · simp
+    · rw [hl] at hpx
+      simp only at hpx
+      have hs : s.inSubset = true := propsInSubset_mem (p := (nm, s)) hps hp
+      exact and_ne_reject.mpr ⟨ih g (Nat.le_refl _) f .plain s x hs hpx,
+        checkCons_fieldCons st o re defs h s hs f x hpx⟩
+
+theorem allOf_case (h : TableOK st) (hd : defsInSubset defs = true) (g : Nat)
+    (ih : IHle st o re defs g) (ctx : Ctx) (refs : List (List Char))
+    (props : List (List Char × Schema)) (req xreq : List (List Char)) (f : Nat) (v : Json)
+    (hsub : (Schema.allOf refs props req xreq).inSubset = true)
+    (hv : validJ re (f + 1) defs (.allOf refs props req xreq) v = true) :
+    acceptsTy st re (g + 1) (trDefs st o defs) (tr st o ctx (.allOf refs props req xreq)) v ≠ .reject := by
+  simp only [Schema.inSubset, Bool.and_eq_true] at hsub
+  obtain ⟨⟨hps, _⟩, _⟩ := hsub
+  cases v <;> simp only [validJ, Bool.false_eq_true] at hv
+  rename_i kvs
+  simp only [Bool.and_eq_true, List.all_eq_true] at hv
+  obtain ⟨⟨⟨hrefs, hreq⟩, hxreq⟩, hprops⟩ := hv
+  -- a referenced part accepts the value
+  have hbase : ∀ r ∈ refs, (match (trDefs st o defs).lookup r with
+      | some d => acceptsTy st re g (trDefs st o defs) d (.obj kvs)
+      | none => .reject) ≠ .reject := by
+    intro r hr
+    have := hrefs r hr
+    rw [lookup_trDefs]
+    cases hl : defs.lookup r with
+    | none => simp [hl] at this
+    | some t =>
+      simp only [hl] at this
+      simp only [Option.map]
+      exact ih g (Nat.le_refl _) f .top t (.obj kvs) (defs_lookup_inSubset hd hl) this
+  have hder : acceptsTy st re (g + 1) (trDefs st o defs)
+      (.derived refs (trProps st o (req ++ xreq) props) .unset) (.obj kvs) ≠ .reject := by
+    simp only [acceptsTy]
+    refine and_ne_reject.mpr ⟨?_, ?_⟩
+    · rw [all_ne_reject]
+      intro t ht
+      simp only [List.mem_map] at ht
+      obtain ⟨r, hr, rfl⟩ := ht
+      exact hbase r hr
+    · refine fields_ne_reject st o re defs h g ih props (req ++ xreq) kvs f hps ?_ hprops
+      intro k hk
+      cases List.mem_append.mp hk with
+      | inl e => exact hreq k e
+      | inr e => exact hxreq k e
+  cases ctx with
+  | top => simpa only [tr] using hder
+  | plain =>
+    cases refs with
+    | nil => simpa only [tr] using hder
+    | cons r rs =>
+      cases rs with
+      | cons r2 rs2 => simpa only [tr] using hder
+      | nil =>
+        cases props with
+        | cons p ps => simpa only [tr] using hder
+        | nil =>
+          simp only [tr, acceptsTy]
+          exact hbase r (by simp)
+  | item phc =>
+    cases refs with
+    | nil => simpa only [tr] using hder
+    | cons r rs =>
+      cases rs with
+      | cons r2 rs2 => simpa only [tr] using hder
+      | nil =>
+        cases props with
+        | cons p ps => simpa only [tr] using hder
+        | nil =>
+          simp only [tr, acceptsTy]
+          exact hbase r (by simp)
+
 theorem dict_case (g : Nat) (ih : IHle st o re defs g) (ctx : Ctx) (value : Schema) (f : Nat)
     (v : Json) (hsub : value.inSubset = true)
     (hv : validJ re (f + 1) defs (.dict value) v = true) :
@@ -623,6 +732,7 @@ theorem valid_accepted_all (h : TableOK st) (hd : defsInSubset defs = true) :
           simp only [List.mem_map] at this
           obtain ⟨a, ha, hva⟩ := this
           exact union_ne st o re defs g ih alts f v hsub ⟨a, ha, hva⟩
+        | allOf refs props req xreq => exact allOf_case st o re defs h hd g ih ctx refs props req xreq f v hsub hv
 
 
 end
@@ -654,6 +764,8 @@ theorem tr_congr (st : Style) (o o' : Opts) (h : o.fieldConstraints = o'.fieldCo
   | _, .ref _ => by simp [tr]
   | _, .anyOf alts => by simp [tr, trAlts_congr st o o' h alts]
   | _, .oneOf alts => by simp [tr, trAlts_congr st o o' h alts]
+  | ctx, .allOf refs props req xreq => by
+    simp only [tr, trProps_congr st o o' h (req ++ xreq) props]
 theorem trProps_congr (st : Style) (o o' : Opts) (h : o.fieldConstraints = o'.fieldConstraints)
     (req : List (List Char)) :
     ∀ ps : List (List Char × Schema), trProps st o req ps = trProps st o' req ps
@@ -859,6 +971,7 @@ def routingSafe : Ctx → Schema → Bool
   | _, .dict value => routingSafe .plain value
   | _, .anyOf alts => altsRoutingSafe alts
   | _, .oneOf alts => altsRoutingSafe alts
+  | _, .allOf _ _ _ _ => false
   | _, _ => true
 /-- members: a scalar member may carry constraints (they travel in its `Field()`) -/
 def propsRoutingSafe : List (List Char × Schema) → Bool
@@ -920,9 +1033,13 @@ theorem isConst_tr (st : Style) (o : Opts) (s : Schema) :
     isConst (tr st o .plain s) = (match s with
       | .const _ => true
       | _ => false) := by
-  cases s <;> simp [tr, isConst, scalarCore]
-  · rename_i ty n b
-    cases n <;> simp [isConst]
+  cases s
+  case allOf refs props req xreq =>
+    cases refs with
+    | nil => simp [tr, isConst]
+    | cons r rs => cases rs <;> cases props <;> simp [tr, isConst]
+  case scalar ty n b => cases n <;> simp [tr, isConst, scalarCore]
+  all_goals simp [tr, isConst]
 
 
 end Dcg.Proofs.Sem
@@ -1142,6 +1259,7 @@ theorem rc_all (h : TableOK st) (hF : oF.fieldConstraints = true) (hC : oC.field
         simp only [tr, acceptsTy, trAlts_eq_map, List.map_map]
         exact compat_any_map alts _ _ (fun a ha =>
           ih g (Nat.le_refl _) (.item false) a v (allInSubset_mem hsub ha) (altsRoutingSafe_mem hs ha))
+      | allOf refs props req xreq => simp [routingSafe] at hs
 
 
 end
@@ -1231,6 +1349,7 @@ theorem validJN_mono (re : Regex) (defs : Defs) (hd : Schema.propsOneOfFree defs
       obtain ⟨a, ha, hva⟩ := h
       exact ⟨a, ha, ih a v (allOneOfFree_mem hs ha) hva⟩
     | oneOf alts => simp [Schema.oneOfFree] at hs
+    | allOf refs props req xreq => simp [Schema.oneOfFree] at hs
 
 theorem validJN_mono_le (re : Regex) (defs : Defs) (hd : Schema.propsOneOfFree defs = true)
     (s : Schema) (v : Json) (hs : s.oneOfFree = true) (f f' : Nat) (hle : f ≤ f')
@@ -1621,6 +1740,7 @@ theorem sd_member (h : TableOK st) (hdo : Schema.propsOneOfFree defs = true) (g 
     | anyOf alts =>
       exact ih (g + 1) (Nat.le_refl _) .plain _ x hsub hof (by simpa [strictSafe, memberStrict] using hs) ht
     | oneOf alts => simp [Schema.oneOfFree] at hof
+    | allOf refs props req xreq => simp [Schema.oneOfFree] at hof
 
 
 end
@@ -1785,6 +1905,7 @@ theorem sd_all (h : TableOK st) (hd : defsInSubset defs = true)
         exact ⟨a, ha, ih g (Nat.le_refl _) (.item false) a v (allInSubset_mem hsub ha)
           (allOneOfFree_mem hof ha) (altsStrict_mem hs ha) hta⟩
       | oneOf alts => simp [Schema.oneOfFree] at hof
+      | allOf refs props req xreq => simp [Schema.oneOfFree] at hof
 
 
 end
